@@ -17,6 +17,7 @@ RULE = ("cases = operand specs: unions a|b, schema.any(a,b,c..), nested unions (
         "object's props. Distinct by (combinator, abstract operand shapes); non-trivial always (>=1 combinator).")
 ASSUMPTIONS = ["undeclared schema.dict operands of + are outside the property's quantifier and are not generated",
                "dict keys that collide under Python's hash/== (1 / True / 1.0) are not mixed within one operand pair"]
+REACH_FILES = ['d42/declaration/types/_any_schema.py', 'd42/declaration/types/_dict_schema.py', 'd42/utils/_make_required.py', 'd42/declaration/types/_type_alias_schema.py']
 TIERS = {"quick": dict(shards=16, cases=6000), "thorough": dict(shards=16, cases=90000)}
 
 PROF = Profile(max_depth=2, p_unsat=0.02, key_pool="wide", p_dict_undeclared=0.0)
